@@ -617,7 +617,14 @@ class Runner:
             if 'source_filename' not in self.wrap.values:
                 mlog.error('can only save packagefiles from a [wrap-file]')
                 return False
+            if not os.path.isdir(self.repo_dir):
+                self.log(f'Saving {self.wrap.name}...')
+                self.log('  -> Not downloaded yet')
+                return True
             archive_path = Path(self.wrap_resolver.cachedir, self.wrap.values['source_filename'])
+            if not archive_path.is_file():
+                mlog.error(f'cannot save packagefiles of {self.wrap.name}: source archive {archive_path} is not in the package cache')
+                return False
             lead_directory_missing = bool(self.wrap.values.get('lead_directory_missing', False))
             directory = Path(self.repo_dir)
             packagefiles = Path(self.wrap.filesdir, self.wrap.values['patch_directory'])
